@@ -77,7 +77,7 @@ def documented(l, r, op):
         return None if op == '*' else 'raise'      # __rmul__ of the inertia is documented loosely
     if l in DQ and r in DQ:
         if op == '*': return ('cls', l) if l == r else None
-        if op in ('+', '-'): return ('cls', 'DualQuaternion') if l == r == 'DualQuaternion' else None
+        if op in ('+', '-'): return ('cls', 'DualQuaternion')      # a sum or difference (also of unit dual quaternions) is a general dual quaternion
         return None
     # everything else: two different families
     if family(l) != family(r): return 'raise'
@@ -207,6 +207,16 @@ def _impl(tier, seed, search):
                     try: got = classify(mk(c, m) * bad)
                     except Exception: continue
                     L.fail(f'must-raise:{c}*non-conforming', f'{c} * {bad!r} must raise but returned {got}', inp, observed=got, required='exception')
+        # pose / array: only pose / pose and pose / scalar are defined — an array of the pose's own matrix shape (or any other array / list) must raise
+        for c in POSE:
+            n_ = dict(SO2=2, SE2=3, SO3=3, SE3=4)[c]
+            for m in (1, 2):
+                for bad, tag in ((np.eye(n_), 'identity array of its own shape'), (np.full((n_, n_), 2.0), 'array of its own shape'), (np.eye(n_).tolist(), 'nested list'), (np.ones(n_), 'vector'), (np.eye(n_ + 1), 'larger array')):
+                    inp = dict(cls=c, op='/', right=tag, len=m)
+                    L.count('pose/array', key=(c, tag, m)); L.sample('pose/array', inp)
+                    try: got = classify(mk(c, m) / bad)
+                    except Exception: continue
+                    L.fail(f'must-raise:{c}/array', f'{c} / {tag} must raise but returned {got}', inp, observed=got, required='exception')
         # == and != within one class: booleans (a list for sequences), never raising
         for c in POSE + QUAT + ['Twist2', 'Twist3', 'Plucker']:
             for m in (1, 2):
